@@ -121,6 +121,11 @@ func (h *Handler) getHost(ctx context.Context, u *url.URL) (string, error) {
 		if !ok {
 			return "", errors.New("invalid query parameter")
 		}
+		// the value becomes one line of the connection file
+		if strings.ContainsAny(hosts[0], "\r\n") {
+			log.Printf("Invalid host %q specified in client request", hosts[0])
+			return "", errors.New("invalid host specified in query parameter")
+		}
 		return hosts[0], nil
 	default:
 		return h.selectRandomHost(), nil
